@@ -96,7 +96,7 @@ def check(case, ctx):
     cg = ctx.cg
     cd = case["c"]
     n = case["n"]
-    c = G.build(cg, cd, "graph")
+    c = G.build(cg, cd, "sparse" if len(cd["nodes"]) % 3 == 0 else "graph")
     net = Net.of(c)
     ctx.count(f"mode:{case['mode']}")
     ins = sorted(net.inputs())
